@@ -89,6 +89,14 @@ CLAIMED = {
              "clear(): k arbitrary steps, clear, T replay steps == fresh layer (3 layer types x delta/single/double exponential synapses x LIF/ALIF, plus "
              "a delayed connection); parameters and adaptations unchanged by clear.",
         ref="6/C17"),
+    "C18": dict(
+        text="Real Serial layer with a delayed connection + real DelayAdjustedSTDP/STDPD, DelayAdjustedKernelSTDP/STDPD, DelayAdjustedMSTDP/MSTDPD and "
+             "KernelSTDP trainers on SYMBOLIC spike histories (T=3, 4 thorough) with NaN-aware event times and SYMBOLIC real per-synapse delays in "
+             "[0,3dt] (re-assigned every step for the delay-learning variants): every step's potentiation and depression parts equal the documented "
+             "function of t_delta (causal branch iff t_delta >= 0, no change and no NaN while either side has not spiked), 4 sign modes, dense and direct "
+             "cells, scalar and per-sample signals. Relational: kernel STDP with the shipped exponential kernels == delay-adjusted STDP (weights and "
+             "delays); with all delays zero delay-adjusted == unadjusted KernelSTDP.",
+        ref="6/C18"),
 }
 
 REASONS = {}
